@@ -93,8 +93,8 @@ def decode_array(w, path):
         raise DecodeError('unknown numtype')
     if js['byteorder'] not in ('little', 'big'):
         raise DecodeError('unknown byteorder')
-    if js['arrayorder'] != 'C':
-        raise DecodeError("arrayorder is not 'C'")
+    if js['arrayorder'] not in ('C', 'F'):
+        raise DecodeError("arrayorder is neither 'C' nor 'F'")
     shape = js['shape']
     if not isinstance(shape, list) or len(shape) < 1:
         raise DecodeError('shape is not a list')
@@ -111,7 +111,8 @@ def decode_array(w, path):
     expected = symnp._prod(shape) * dt.itemsize
     if data.size() != expected:
         raise DecodeError('data length != prod(shape)*itemsize')
-    rows = data.decode(dt, atom, shape[0])
+    # a reader following the description reads column-major when it says 'F' (same thing for 1-D)
+    rows = data.decode(dt, atom, shape[0], 'F' if (js['arrayorder'] == 'F' and len(shape) > 1) else 'C')
     return js['numtype'], js['byteorder'], tuple(shape), rows, dt
 
 
